@@ -13,7 +13,10 @@ package anndbverif
 // program under test performs itself and nothing added by the harness.
 
 import (
+	"fmt"
+	"sync/atomic"
 	"syscall"
+	"time"
 	"unsafe"
 )
 
@@ -43,6 +46,42 @@ type tokSched struct {
 	trace     uint64 // hash of the schedule (who ran at each decision)
 	maxSteps  uint64
 	runaway   bool
+	abandoned bool  // the run was given up (deadlock): workers that wake up park for good
+	parked    int32 // workers that have done so
+}
+
+// afterWake: a worker that wakes up in an abandoned run parks on a Go-level
+// wait (which holds no OS thread, unlike the raw read it was in) and never
+// returns.
+//
+//go:norace
+func (s *tokSched) afterWake() {
+	if s.abandoned {
+		atomic.AddInt32(&s.parked, 1)
+		select {}
+	}
+}
+
+// abandon gives a deadlocked run up: every worker that is not done is woken,
+// parks for good, and only then are the pipes closed (a worker still inside
+// read(2) on a closed and reused descriptor could steal the next run's token).
+//
+//go:norace
+func (s *tokSched) abandon() {
+	s.abandoned = true
+	waiting := int32(0)
+	for i := 0; i < s.n; i++ {
+		if s.state[i] != wDone {
+			waiting++
+			rawWrite(s.wfd[i])
+		}
+	}
+	for i := 0; atomic.LoadInt32(&s.parked) < waiting && i < 200000; i++ {
+		time.Sleep(20 * time.Microsecond)
+	}
+	if atomic.LoadInt32(&s.parked) == waiting {
+		s.close()
+	}
 }
 
 var sched *tokSched
@@ -111,6 +150,17 @@ func newTokSched(n int, seed uint64, policy, p int, estSteps int) *tokSched {
 	return s
 }
 
+// describeBlocked: how many workers wait for which lock (for the message of a deadlock).
+func (s *tokSched) describeBlocked() string {
+	by := map[unsafe.Pointer]int{}
+	for i := 0; i < s.n; i++ {
+		if s.state[i] == wBlocked {
+			by[s.blockedOn[i]]++
+		}
+	}
+	return fmt.Sprintf("%d distinct locks waited for", len(by))
+}
+
 func (s *tokSched) close() {
 	for i := range s.rfd {
 		syscall.Close(s.rfd[i])
@@ -167,6 +217,7 @@ func (s *tokSched) transfer(self, j int) {
 	s.cur = j
 	rawWrite(s.wfd[j])
 	rawRead(s.rfd[self])
+	s.afterWake()
 }
 
 //go:norace
@@ -208,6 +259,7 @@ func schedBlock(key interface{}) {
 		s.cur = s.n
 		rawWrite(s.wfd[s.n])
 		rawRead(s.rfd[self])
+		s.afterWake()
 		return
 	}
 	s.transfer(self, j)
@@ -240,7 +292,11 @@ func schedStamp() uint64 {
 // workerStart parks the calling worker until it is given the token.
 //
 //go:norace
-func schedWorkerStart(i int) { rawRead(sched.rfd[i]) }
+func schedWorkerStart(i int) {
+	s := sched
+	rawRead(s.rfd[i])
+	s.afterWake()
+}
 
 // workerDone marks the worker finished and passes the token on (to the main
 // goroutine when nobody is runnable).
